@@ -97,6 +97,9 @@ static sslKeys_t *mx_mkkeys(const char *cert, const char *key, const char *ca)
         if (rc < 0) { fprintf(stderr, "HARNESS: loadkeys(%s) failed %d\n", cert ? cert : ca, rc); exit(2); }
     }
     if (matrixSslLoadPsk(k, mx_psk_key, 16, mx_psk_id, 16) < 0) { fprintf(stderr, "HARNESS: loadpsk failed\n"); exit(2); }
+    { /* session-ticket keys: needed for RFC 5077 tickets and for TLS 1.3 NewSessionTicket */
+        static const unsigned char tn[16] = "verif-ticket-key", tk[32] = { 7, 1, 7, 2, 7, 3, 7, 4, 7, 5, 7, 6, 7, 7, 7, 8, 7, 9, 7, 10, 7, 11, 7, 12, 7, 13, 7, 14, 7, 15, 7, 16 }, th[32] = { 9, 9, 8, 8, 7, 7, 6, 6, 5, 5, 4, 4, 3, 3, 2, 2, 1, 1, 9, 9, 8, 8, 7, 7, 6, 6, 5, 5, 4, 4, 3, 3 };
+        if (cert && matrixSslLoadSessionTicketKeys(k, tn, tk, 32, th, 32) < 0) { fprintf(stderr, "HARNESS: load ticket keys failed\n"); exit(2); } }
     if (mx_load_tls13_psk && matrixSslLoadTls13Psk(k, mx_tls13_psk, 32, mx_tls13_psk_id, sizeof(mx_tls13_psk_id) - 1, NULL) < 0) { fprintf(stderr, "HARNESS: load tls13 psk failed\n"); exit(2); }
     return k;
 }
@@ -105,6 +108,7 @@ static void mx_keys_load(void)
     mx_keys.srv_rsa = mx_mkkeys(MX_TK "RSA/2048_RSA.pem", MX_TK "RSA/2048_RSA_KEY.pem", mx_ca_both);
     mx_keys.srv_ec = mx_mkkeys(MX_TK "EC/256_EC.pem", MX_TK "EC/256_EC_KEY.pem", mx_ca_both);
     mx_keys.srv_psk = mx_mkkeys(NULL, NULL, NULL);
+    { static const unsigned char tn[16] = "verif-ticket-key", tk[32] = { 1 }, th[32] = { 2 }; matrixSslLoadSessionTicketKeys(mx_keys.srv_psk, tn, tk, 32, th, 32); }
     mx_keys.cli = mx_mkkeys(NULL, NULL, mx_ca_both);
     mx_keys.cli_rsa = mx_mkkeys(MX_TK "RSA/2048_RSA.pem", MX_TK "RSA/2048_RSA_KEY.pem", mx_ca_both);
     mx_keys.cli_ec = mx_mkkeys(MX_TK "EC/256_EC.pem", MX_TK "EC/256_EC_KEY.pem", mx_ca_both);
